@@ -190,6 +190,23 @@ def _mk_collection(spec):
         return b
     if kind == "mapblocks":
         return _mk_mapblocks(spec)[0]
+    if kind == "frame":
+        from core import import_dd
+        dd = import_dd()
+        import pandas as pd
+        pdf = pd.DataFrame({"a": list(range(spec["n"])), "b": [i % 3 for i in range(spec["n"])]})
+        df = dd.from_pandas(pdf, npartitions=spec["np"])
+        for op in spec["ops"]:
+            if op == "assign":
+                df = df.assign(c=df.a + 1)
+            elif op == "mapp":
+                df = df.map_partitions(_df_inc)
+            elif op == "filter":
+                df = df[df.a % 2 == 0]
+            elif op == "series":
+                df = df.a
+                break
+        return df
     from dask import delayed
     vals = [delayed(FUNCS[i % 6])(i) for i in range(spec["n"])]
     while len(vals) > 1:
@@ -199,6 +216,14 @@ def _mk_collection(spec):
 
 def _addx(blk, extra):
     return blk + extra
+
+
+def _df_inc(part):
+    return part + 1
+
+
+def _addx3(blk, extra, lit):
+    return blk + extra + (sum(map(ord, lit)) % 7 if isinstance(lit, str) else len(lit))
 
 
 def _mk_extra(kind):
@@ -231,6 +256,17 @@ def _mk_mapblocks(spec):
     if extra is None:
         extra = x * 2
     via = spec["via"]
+    lit = spec.get("lit")
+    if lit:
+        # an additional *literal* argument (index None): a string equal to the name of the input layer, another string,
+        # or a list (dask#8978) -- `Blockwise.clone` must leave it alone
+        litv = x.name if lit == "name" else "zz" if lit == "str" else [1, 2]
+        if via == "map_blocks":
+            y = da.map_blocks(_addx3, x, extra, litv, dtype=x.dtype)
+        else:
+            eidx = "i" if spec["extra"] == "array" else "" if spec["extra"] == "0d" else None
+            y = da.blockwise(_addx3, "i", x, "i", extra, eidx, litv, None, dtype=x.dtype)
+        return y, [x, extra]
     if spec["extra"] == "array" or (via == "elemwise" and spec["extra"] == "0d"):
         y = x + extra if via == "elemwise" else da.map_blocks(_addx, x, extra, dtype=x.dtype) if via == "map_blocks" \
             else da.blockwise(_addx, "i", x, "i", extra, "i" if spec["extra"] == "array" else "", dtype=x.dtype)
@@ -254,6 +290,9 @@ def _value(c, **kw):
     v = c.compute(scheduler=kw.get("scheduler", "sync"), optimize_graph=kw.get("optimize_graph", True))
     if isinstance(v, np.ndarray):
         return ["nd", list(v.shape), v.ravel().tolist()]
+    if hasattr(v, "to_numpy") and hasattr(v, "index"):      # pandas DataFrame / Series
+        return ["pd", [str(c) for c in getattr(v, "columns", [getattr(v, "name", None)])], list(map(int, v.index)),
+                v.to_numpy().tolist()]
     try:
         return to_sexp(v)
     except TypeError:
@@ -270,7 +309,7 @@ def _mk_omit(inp, ins=None):
             return None, None
         # the very objects the child was built from (a Delayed has a fresh random key every time it is created)
         return [ins[i] for i in how], "inputs"
-    if not how or isinstance(how, list) or ch["kind"] == "delayed":
+    if not how or isinstance(how, list) or ch["kind"] in ("delayed", "frame"):
         return None, None
     if how == "self":
         return _mk_collection(ch), "self"
@@ -313,7 +352,24 @@ def _task_okeys(c):
     return {k for k in _okeys(c) if istask(g[k])}
 
 
+SIG_DF = "{op}:dataframe-collection:postpersist-rejects-rename"
+
+
 def case_api(ctx, inp):
+    """dask DataFrames (dask-expr collections): `checkpoint` works; `clone` / `bind` / `wait_on` hand `rename=` to the
+    collection's rebuild function, which `FrameBase._postpersist` does not accept (known finding)"""
+    if inp["child"]["kind"] != "frame" or inp["op"] == "checkpoint":
+        return _case_api(ctx, inp)
+    try:
+        return _case_api(ctx, inp)
+    except TypeError as e:
+        if "rename" not in str(e):
+            raise
+        ctx.fail(f"{inp['op']} on a dask DataFrame raises TypeError: {str(e)[:100]}", sig=SIG_DF.format(op=inp["op"]))
+        ctx.branch(inp["op"] + "-frame-rejected")
+
+
+def _case_api(ctx, inp):
     import dask
     from dask.graph_manipulation import bind, checkpoint, clone, wait_on
     ins = None
@@ -458,10 +514,24 @@ def case_checkpoint_tree(ctx, inp):
         impl.append([ik(k), [ik(a) for a in args]])
     map_keys = [x for x in impl[-1][1] if isinstance(x, int)]
     all_map = sorted(intern.values())
-    model = ctx.lean(Sym("checkpoint_reduce"), "cp", 0 if se is False else (8 if se is None else se), all_map)
-    ctx.eq("checkpoint reduce layer", model, impl)
+    se_n = 0 if se is False else (8 if se is None else se)
+    # `checkpointReduce?`: explicit "fuel exhausted" result; the fuel `len + 1` provably suffices (checkpoint_fuel_suffices)
+    model = ctx.lean(Sym("checkpoint_reduce2"), "cp", se_n, all_map, Sym("auto"))
+    ctx.eq("checkpoint reduce layer", model, [Sym("ok"), impl])
     if len(impl) > 1:
         ctx.branch("multi-level")
+    # shape of the aggregation tree (checkpoint_shape): every inner node has exactly split_every inputs, the final one at
+    # most split_every; with split_every=False there is a single flat node
+    if se_n:
+        bad = [e for e in impl[:-1] if len(e[1]) != se_n]
+        if bad or len(impl[-1][1]) > se_n:
+            ctx.fail("checkpoint: an aggregation node has the wrong number of inputs", observed=[len(e[1]) for e in impl], expected=se_n)
+        if len(impl[-1][1]) < se_n and len(impl) > 1:
+            ctx.branch("final-node-not-full")
+    elif len(impl) != 1:
+        ctx.fail("checkpoint(split_every=False) built an aggregation tree")
+    if impl[-1][0] != "cp" or any(e[0] != [Sym("t"), "cp", i] for i, e in enumerate(impl[:-1])):
+        ctx.fail("checkpoint: unexpected keys in the reduce layer", observed=[e[0] for e in impl])
     # every map key feeds into the final node
     feeds = {}
     for k, ins in impl:
@@ -480,13 +550,33 @@ def case_checkpoint_tree(ctx, inp):
             break
 
 
-def case_bw_layer(ctx, inp):
-    """`Blockwise.clone(keys, seed, bind_to)` on the top layer of a map_blocks/blockwise collection: the `bound` flag
-    (= is_leaf) against the model's `blockwiseLeaf`, for the clone-key set `bind` computes from an omit subset"""
+def _bw_idx(indices):
+    """first components of `Blockwise.indices` as the model's BwArg: a TaskRef is `ref`; a hashable name *with an index*
+    is `name`; everything else (literals: index None, or unhashable) is `other`"""
     from dask._task_spec import TaskRef
-    from dask.base import get_name_from_key
-    from dask.blockwise import Blockwise
     from dask.core import ishashable
+    out = []
+    for k, idxv in indices:
+        if isinstance(k, TaskRef):
+            out.append([Sym("ref"), to_sexp(k.key)])
+        elif idxv is not None and ishashable(k) and isinstance(k, (str, tuple)):
+            try:
+                out.append([Sym("name"), to_sexp(k)])
+            except TypeError:
+                out.append([Sym("other")])
+        else:
+            out.append([Sym("other")])
+    return out
+
+
+def case_bw_layer(ctx, inp):
+    """`Blockwise.clone(keys, seed, bind_to)` on the top layer of a map_blocks/blockwise collection, for the clone-key set
+    `bind` computes from an omit subset: the whole rewrite (`indices`, `numblocks`, `output`, the task wrapper, `bound`)
+    against the model's `blockwiseClone`"""
+    from dask._task_spec import TaskRef
+    from dask.base import clone_key, get_name_from_key
+    from dask.blockwise import Blockwise, blockwise_token
+    from dask.graph_manipulation import chunks
     y, ins = _mk_mapblocks(inp["child"])
     hlg = y.__dask_graph__()
     layer = hlg.layers[y.name]
@@ -499,39 +589,297 @@ def case_bw_layer(ctx, inp):
         for ln in o.__dask_layers__():
             if ln in hlg.layers:
                 keys -= hlg.layers[ln].get_output_keys()
-    new, bound = layer.clone(keys=keys, seed=inp["seed"], bind_to="blocker-key")
+    seed = inp["seed"]
+    bind_to = "blocker-key" if inp.get("bind", True) else None
+    new, bound = layer.clone(keys=keys, seed=seed, bind_to=bind_to)
     names = sorted({get_name_from_key(k) for k in keys}, key=repr)
-    idx = []
-    for k, _ in layer.indices:
-        if isinstance(k, TaskRef):
-            idx.append([Sym("ref"), to_sexp(k.key)])
-        elif ishashable(k) and isinstance(k, (str, tuple, int)) and not isinstance(k, bool):
+    idx = _bw_idx(layer.indices)
+    rho = [[to_sexp(n), to_sexp(clone_key(n, seed))] for n in sorted(set(names) | {layer.output, layer.task.key}, key=repr)
+           if isinstance(n, (str, tuple))]
+    m = ctx.lean(Sym("bw_clone"), [to_sexp(n) for n in names], rho, Sym("nobind") if bind_to is None else bind_to,
+                 to_sexp(layer.output), idx, [to_sexp(k) for k in layer.numblocks], to_sexp(layer.task.key))
+    wrapped = None
+    if getattr(new.task, "func", None) is chunks.bind:
+        a = new.task.args
+        if len(a) == 2 and a[0] is layer.task and isinstance(a[1], TaskRef):
+            for i in range(len(new.indices) + 1):
+                if a[1].key == blockwise_token(i):
+                    wrapped = i
+        if wrapped is None:
+            ctx.fail("Blockwise.clone: the chunks.bind wrapper is not (old task, TaskRef(blockwise_token(i)))", observed=repr(new.task)[:200])
+            wrapped = -1
+    impl = [[to_sexp(new.output), _bw_idx(new.indices), [to_sexp(k) for k in new.numblocks], to_sexp(new.task.key), wrapped], bool(bound)]
+    ctx.eq("Blockwise.clone: (output, indices, numblocks keys, task key, wrapper), bound", m, impl)
+    # positions and index tuples are untouched; literal arguments are the very same objects
+    for i, (k, iv) in enumerate(layer.indices):
+        nk, niv = new.indices[i]
+        if niv != iv:
+            ctx.fail("Blockwise.clone changed an index tuple", observed=[i, repr(iv), repr(niv)])
+        if not isinstance(k, TaskRef) and (iv is None) and nk is not k:
             try:
-                idx.append([Sym("name"), to_sexp(k)])
-            except TypeError:
-                idx.append([Sym("other")])
-        else:
-            idx.append([Sym("other")])
-    m = ctx.lean(Sym("bw_leaf"), [to_sexp(n) for n in names], idx, [to_sexp(k) for k in layer.numblocks])
-    ctx.eq("Blockwise.clone: bound (= is_leaf)", m, bool(bound))
+                same = bool(nk == k)
+            except Exception:
+                same = False
+            if not same:
+                ctx.fail("Blockwise.clone rewrote a literal argument (index None)", observed=[repr(k)[:80], repr(nk)[:80]])
+    if len(new.indices) not in (len(layer.indices), len(layer.indices) + 1):
+        ctx.fail("Blockwise.clone: unexpected number of indices")
     has_blocker = any(isinstance(k, TaskRef) and k.key == "blocker-key" for k, _ in new.indices)
     if has_blocker != bool(bound):
         ctx.fail("Blockwise.clone: `bound` flag and the injected blocker argument disagree", observed=[bound, has_blocker])
+    if has_blocker and (wrapped != len(layer.indices) or new.indices[-1][1] is not None):
+        ctx.fail("Blockwise.clone: the blocker argument is not the one the wrapper task reads", observed=[wrapped, len(layer.indices)])
     # the statement behind it: a regenerated layer none of whose inputs is regenerated must be bound
     # (inputs are read off the HighLevelGraph's dependency map, not off the layer's own indices; a bag Item enters
     # through an extra `finalize` layer that is not part of the omitted collection and is therefore regenerated)
     omit_layers = {ln for o in omit for ln in o.__dask_layers__()}
     regenerated_inputs = set(hlg.dependencies[y.name]) - omit_layers
-    if not regenerated_inputs and not bound:
-        ctx.fail("Blockwise.clone: a regenerated layer all of whose inputs are omitted was not bound to the blocker",
-                 observed=[repr(k) for k, _ in layer.indices])
-    if regenerated_inputs and bound:
-        ctx.fail("Blockwise.clone: a layer with a regenerated input was bound as if it were a leaf",
-                 observed=sorted(map(repr, regenerated_inputs)))
-    ctx.branch("bw-%s-omit%s-%s" % (inp["child"]["extra"], "".join(map(str, inp["omit"])), "bound" if bound else "inner"))
+    if bind_to is not None:
+        if not regenerated_inputs and not bound:
+            ctx.fail("Blockwise.clone: a regenerated layer all of whose inputs are omitted was not bound to the blocker",
+                     observed=[repr(k) for k, _ in layer.indices])
+        if regenerated_inputs and bound:
+            ctx.fail("Blockwise.clone: a layer with a regenerated input was bound as if it were a leaf",
+                     observed=sorted(map(repr, regenerated_inputs)))
+    # consistency with `_bind_one`'s dependency map: the names the rewritten layer refers to are the regenerated names
+    # of the regenerated inputs, the omitted inputs under their own names, and the blocker iff bound
+    refs_new = {e[1] for e in _bw_idx(new.indices) if e[0] != "other"}
+    deps = set(hlg.dependencies[y.name])
+    expect = {clone_key(d, seed) for d in deps - omit_layers} | (deps & omit_layers) | ({"blocker-key"} if bound else set())
+    refs_old = {e[1] for e in idx if e[0] != "other"}
+    if refs_old == deps and refs_new != expect:
+        ctx.fail("Blockwise.clone: the rewritten layer does not refer to exactly the layers `_bind_one` records as its dependencies",
+                 observed=sorted(map(repr, refs_new)), expected=sorted(map(repr, expect)))
+    if refs_old == deps:
+        ctx.branch("bw-refs-equal-hlg-deps")
+    if inp["child"].get("lit"):
+        ctx.branch("bw-literal-" + inp["child"]["lit"])
+    ctx.branch("bw-%s-omit%s-%s%s" % (inp["child"]["extra"], "".join(map(str, inp["omit"])), "bound" if bound else "inner",
+                                     "" if bind_to is not None else "-nobind"))
 
 
-CASES = {"layer": case_layer, "api": case_api, "checkpoint_tree": case_checkpoint_tree, "bw_layer": case_bw_layer}
+# ---------------------------------------------------------------------------------------------
+# DAGs of collections (several layers, shared inputs, several leaves): the layer bookkeeping of `_bind_one`
+# ---------------------------------------------------------------------------------------------
+
+def _inc_blk(blk):
+    return blk + 1
+
+
+def _build_dag(spec):
+    """JSON description -> the list of collections, one per node (node i may use nodes < i)"""
+    flav = spec["flavour"]
+    nodes = []
+    if flav == "array":
+        import numpy as np
+        import dask.array as da
+        n, c = spec["n"], spec["chunks"]
+        for nd in spec["nodes"]:
+            if nd[0] == "leaf":
+                x = da.from_array(np.arange(n) + nd[1], chunks=c)
+            elif nd[0] == "un":
+                a = nodes[nd[2]]
+                op = nd[1]
+                if op == "add":
+                    x = a + 1
+                elif op == "mul":
+                    x = a * 2
+                elif op == "neg":
+                    x = -a
+                elif op == "rev":
+                    x = a[::-1]
+                elif op == "rechunk":
+                    x = a.rechunk(max(1, c // 2) if c > 1 else 2)
+                elif op == "mapb":
+                    x = a.map_blocks(_inc_blk, dtype=a.dtype)
+                else:
+                    x = a.cumsum(axis=0)
+            else:
+                a, b = nodes[nd[2]], nodes[nd[3]]
+                x = a + b if nd[1] == "add" else a * b
+            nodes.append(x)
+        return nodes
+    if flav == "delayed":
+        from dask import delayed
+        for nd in spec["nodes"]:
+            if nd[0] == "leaf":
+                nodes.append(delayed(FUNCS[nd[1] % 6])(nd[1]))
+            else:
+                nodes.append(delayed(FUNCS[len(nodes) % 6])(*[nodes[j] for j in nd[1]]))
+        return nodes
+    import dask.bag as db
+    for nd in spec["nodes"]:
+        if nd[0] == "leaf":
+            nodes.append(db.from_sequence(list(range(nd[1], nd[1] + spec["n"])), npartitions=spec["chunks"]))
+        elif nd[0] == "un":
+            nodes.append(nodes[nd[2]].map(_inc) if nd[1] != "filter" else nodes[nd[2]].filter(_even))
+        else:
+            import dask.bag as db
+            nodes.append(db.concat([nodes[nd[2]], nodes[nd[3]]]))
+    return nodes
+
+
+def case_bind_layers(ctx, inp):
+    """`_bind_one`'s layer bookkeeping: `layers` / `dependencies` of the HighLevelGraph that the real `bind` / `clone`
+    returns, against the model `bindOne` (real `clone_key` as a finite map; `is_bound` per layer from the real
+    `layer.clone`), in two pop orders, plus the statement-level oracles (valid graph, leaves depend on the blocker,
+    only omitted layers keep their names)"""
+    from dask.base import clone_key
+    from dask.graph_manipulation import bind, checkpoint, clone
+    from dask.highlevelgraph import HighLevelGraph
+    nodes = _build_dag(inp["dag"])
+    child = nodes[inp["out"]]
+    omit = [nodes[i] for i in inp["omit"]]
+    par = inp.get("parent")
+    if inp["op"] == "clone":
+        parent = None
+    elif isinstance(par, dict) and "node" in par:
+        parent = nodes[par["node"] % len(nodes)]
+    else:
+        parent = _mk_collection(par)
+    seed, se, al = inp["seed"], inp.get("split_every"), inp.get("assume_layers", True)
+    dsk = child.__dask_graph__()
+    if not isinstance(dsk, HighLevelGraph):
+        ctx.note("child-graph-not-hlg")
+        return
+    if set(dsk.layers) != set(dsk.dependencies):
+        ctx.fail("child graph: layers and dependencies have different keys")
+        return
+    blocker = checkpoint(parent, split_every=se) if parent is not None else None
+    bkey = blocker.key if blocker is not None else None
+    bdsk = blocker.__dask_graph__() if blocker is not None else None
+    child_in_omit = any(set(o.__dask_layers__()) & set(child.__dask_layers__()) for o in omit)
+    if al:
+        omit_layers = {ln for o in omit for ln in o.__dask_layers__()}
+        omit_keys = set()
+    else:
+        omit_layers = set()
+        omit_keys = {k for o in omit for k in o.__dask_graph__()}
+    # the key set `_bind_one` hands to every `layer.clone`
+    clone_keys = dsk.get_all_external_keys() - omit_keys
+    for ln in omit_layers:
+        if ln in dsk.layers:
+            clone_keys -= dsk.layers[ln].get_output_keys()
+    leaf = {}
+    for name, layer in dsk.layers.items():
+        try:
+            leaf[name] = bool(layer.clone(keys=set(clone_keys), seed=seed, bind_to="blocker-probe")[1])
+        except Exception as e:
+            ctx.fail(f"layer.clone raised on a layer of the child: {type(e).__name__}: {str(e)[:100]}")
+            return
+    try:
+        if parent is None:
+            r = clone(child, omit=omit or None, seed=seed, assume_layers=al)
+        else:
+            r = bind(child, parent, omit=omit or None, seed=seed, assume_layers=al, split_every=se)
+    except Exception as e:
+        ctx.fail(f"{inp['op']} raised: {type(e).__name__}: {str(e)[:120]}")
+        return
+    h = r.__dask_graph__()
+    if not isinstance(h, HighLevelGraph):
+        ctx.fail("the result's graph is not a HighLevelGraph")
+        return
+    names = list(dsk.layers)
+    rho = {n: clone_key(n, seed) for n in names}
+    inv = {v: k for k, v in rho.items()}
+    fresh = len(inv) == len(rho) and not (set(inv) & set(names)) and not (bdsk is not None and set(inv) & set(bdsk.layers))
+    if not fresh:
+        ctx.note("clone_key-not-fresh")       # assumption of the theorems violated: only diffed, not judged
+    G = [[n, sorted(dsk.dependencies[n]), leaf[n]] for n in names]
+    B = [[n, sorted(d)] for n, d in bdsk.dependencies.items()] if bdsk is not None else []
+    impl = []
+    for n in h.layers:
+        deps = sorted(h.dependencies.get(n, ()))
+        if bdsk is not None and n in bdsk.layers:
+            origin = [Sym("blocker")]      # (bind builds its own checkpoint: same names, other objects)
+        elif n in dsk.layers:
+            origin = [Sym("verbatim")]
+            if h.layers[n] is not dsk.layers[n]:
+                ctx.fail("a layer that kept its name is not the original layer object", observed=n)
+        elif n in inv:
+            origin = [Sym("cloned"), inv[n], bkey is not None and bkey in h.dependencies.get(n, ())]
+        else:
+            origin = [Sym("unknown")]
+        impl.append([n, origin, deps])
+    impl.sort(key=lambda e: e[0])
+    results = []
+    for o1, o2 in ((0, 0), tuple(inp.get("orders", [1, 2]))):
+        m = ctx.lean(Sym("bind_one"), G, list(child.__dask_layers__()), sorted(omit_layers), [[k, v] for k, v in rho.items()],
+                     Sym("noblocker") if bkey is None else bkey, B, o1, o2)
+        if not (isinstance(m, list) and m and m[0] == "ok"):
+            ctx.disagree("_bind_one: the model did not return a graph", m, impl)
+            return
+        mm = sorted([[e[0], e[1], sorted(e[2])] for e in m[1]], key=lambda e: e[0])
+        results.append(mm)
+    ctx.eq("_bind_one: layers (origin) and dependencies of the new HighLevelGraph", results[0], impl)
+    if results[0] != results[1]:
+        ctx.disagree("_bind_one model: the result depends on the pop order", results[0], results[1])
+    # ---- statement-level oracles on the real result (independent of the model) ----
+    known = None
+    if child_in_omit:
+        known = SIG_SELF.format(op=inp["op"])
+    elif omit and not al:
+        known = SIG_AL.format(op=inp["op"])
+    if set(h.layers) != set(h.dependencies):
+        ctx.fail("result: layers and dependencies have different keys", sig=known)
+    dangling = sorted({d for ds in h.dependencies.values() for d in ds} - set(h.layers))
+    if dangling:
+        ctx.fail("result: a dependency names a layer that does not exist", sig=known, observed=dangling[:3])
+    cloned = [e for e in impl if e[1][0] == "cloned"]
+    regen_prev = {e[1][1] for e in cloned}
+    for n, origin, deps in cloned:
+        prev = origin[1]
+        if bkey is not None and not (set(dsk.dependencies[prev]) & regen_prev) and not origin[2] and fresh:
+            ctx.fail("bind: a regenerated layer none of whose inputs is regenerated does not depend on the checkpoint",
+                     sig=known, observed=[prev, deps])
+        if origin[2] and bkey not in h.layers:
+            ctx.fail("bind: a bound layer depends on a checkpoint layer that is not in the graph", observed=n)
+    if fresh:
+        allowed = set(bdsk.layers) if bdsk is not None else set()
+        # omitted layers and their transitive dependencies
+        stack = [d for e in cloned for d in dsk.dependencies[e[1][1]] if d in omit_layers]
+        while stack:
+            d = stack.pop()
+            if d not in allowed:
+                allowed.add(d)
+                stack.extend(dsk.dependencies[d])
+        kept = (set(h.layers) & set(dsk.layers)) - allowed
+        if kept:
+            ctx.fail("a layer that is neither omitted nor part of the blocker kept its original name", sig=known,
+                     observed=sorted(kept)[:3])
+    if known is None and fresh:
+        try:
+            h.validate()
+        except Exception as e:
+            ctx.fail(f"result: HighLevelGraph.validate() fails: {type(e).__name__}: {str(e)[:160]}")
+        if inp.get("compute", True):
+            ok, got = _guard(ctx, inp["op"], {"assume_layers": al}, None, lambda: _value(r))
+            if ok and got != _value(child):
+                ctx.fail(f"{inp['op']} changes the computed value", observed=got, expected=_value(child))
+    # ---- measured branches ----
+    if len(cloned) >= 3:
+        ctx.branch("layers:multi-layer(>=3 regenerated)")
+    verb = [e[0] for e in impl if e[1][0] == "verbatim"]
+    shared = [o for o in (set(verb) | (set(bdsk.layers) if bdsk is not None else set())) & omit_layers
+              if sum(1 for e in cloned if o in dsk.dependencies[e[1][1]]) >= 2]
+    if shared:
+        ctx.branch("layers:shared-omitted-layer")
+    direct = {d for e in cloned for d in dsk.dependencies[e[1][1]]}
+    if any(v not in direct for v in verb):
+        ctx.branch("layers:verbatim-closure-deeper-than-one")
+    if sum(1 for e in cloned if e[1][2]) > 1:
+        ctx.branch("layers:bound-layers>1")
+    if bdsk is not None and set(bdsk.layers) & set(dsk.layers):
+        ctx.branch("layers:blocker-shares-layers-with-child")
+    if child_in_omit:
+        ctx.branch("layers:child-in-omit")
+    if omit and not al:
+        ctx.branch("layers:assume_layers=False")
+    ctx.branch("layers:%s-%s" % (inp["op"], inp["dag"]["flavour"]))
+
+
+CASES = {"layer": case_layer, "api": case_api, "checkpoint_tree": case_checkpoint_tree, "bw_layer": case_bw_layer,
+         "bind_layers": case_bind_layers}
 
 
 def _gen_coll(rng, kind=None):
@@ -544,7 +892,49 @@ def _gen_coll(rng, kind=None):
     if kind == "bag":
         return {"kind": "bag", "n": rng.randint(1, 12), "np": rng.randint(1, 4),
                 "ops": [rng.choice(["add", "filter"]) for _ in range(rng.randint(1, 3))]}
+    if kind == "frame":
+        return {"kind": "frame", "n": rng.randint(2, 12), "np": rng.randint(1, 4),
+                "ops": [rng.choice(["assign", "mapp", "filter", "series"]) for _ in range(rng.randint(0, 2))]}
     return {"kind": "delayed", "n": rng.randint(1, 7), "fan": rng.randint(2, 3), "ops": []}
+
+
+def _gen_dag(rng, flavour=None):
+    flavour = flavour or rng.choice(["array", "array", "array", "delayed", "bag"])
+    k = rng.randint(2, 7)
+    nodes = []
+    for i in range(k):
+        if i == 0 or rng.random() < 0.15:
+            nodes.append(["leaf", rng.randint(0, 5)])
+        elif flavour == "delayed":
+            nodes.append(["call", sorted(rng.sample(range(i), rng.randint(1, min(3, i))))])
+        elif i >= 2 and rng.random() < 0.45:
+            a, b = rng.sample(range(i), 2)
+            nodes.append(["bin", rng.choice(["add", "mul"]), a, b])
+        elif flavour == "array":
+            nodes.append(["un", rng.choice(["add", "mul", "neg", "rev", "rechunk", "mapb", "cumsum"]), rng.randrange(i)])
+        else:
+            nodes.append(["un", rng.choice(["map", "map", "filter"]), rng.randrange(i)])
+    return {"kind": "dag", "flavour": flavour, "n": rng.randint(2, 6), "chunks": rng.randint(1, 3), "nodes": nodes}
+
+
+def _gen_bind_layers(rng):
+    dag = _gen_dag(rng)
+    k = len(dag["nodes"])
+    out = k - 1 if rng.random() < 0.85 else rng.randrange(k)
+    r = rng.random()
+    if r < 0.25:
+        omit = []
+    elif r < 0.9:
+        omit = sorted(rng.sample(range(k - 1), rng.randint(1, min(2, k - 1))))
+    else:
+        omit = sorted(set(rng.sample(range(k), rng.randint(1, min(2, k))) + [out]))      # child listed in omit
+    op = rng.choice(["bind", "bind", "clone"])
+    inp = {"dag": dag, "out": out, "omit": omit, "op": op, "seed": rng.choice([0, 5, "s"]),
+           "assume_layers": rng.random() < 0.85, "split_every": rng.choice([None, 2]), "orders": [rng.randrange(3), rng.randrange(3)]}
+    if op == "bind":
+        inp["parent"] = {"node": rng.choice(omit)} if omit and rng.random() < 0.5 else \
+            {"node": rng.randrange(k)} if rng.random() < 0.3 else _gen_coll(rng)
+    return inp
 
 
 def generate(ctx):
@@ -565,22 +955,50 @@ def generate(ctx):
         if op != "clone":
             inp["parent"] = _gen_coll(rng)
         yield "api", inp
+    # dask DataFrames: as the checkpointed / waited-for input (works), as parents of bind (works), as children of
+    # clone / bind / wait_on (known finding: the rebuild function rejects rename=)
+    for i in range(ctx.n(14)):
+        op = ["checkpoint", "checkpoint", "bind-parent", "bind-parent", "clone", "bind", "wait_on"][i % 7]
+        if op == "bind-parent":
+            yield "api", {"op": "bind", "child": _gen_coll(rng, rng.choice(["array", "bag", "delayed"])), "parent": _gen_coll(rng, "frame"),
+                          "seed": rng.choice([None, 0]), "assume_layers": True, "omit": None, "scheduler": rng.choice(["sync", "threads"]),
+                          "split_every": rng.choice([None, 2])}
+        else:
+            yield "api", {"op": op, "child": _gen_coll(rng, "frame"), "parent": _gen_coll(rng, rng.choice(["array", "frame", "bag"])),
+                          "seed": 0, "assume_layers": True, "omit": None, "scheduler": rng.choice(["sync", "threads"]),
+                          "split_every": rng.choice([None, False, 2])}
     # Blockwise layers with non-array collection arguments x every omit subset of the layer's inputs
     extras = ["delayed", "item", "count", "0d", "array"]
     vias = ["map_blocks", "blockwise", "elemwise"]
     combos = [(e, v, om) for e in extras for v in vias for om in ([], [0], [1], [0, 1])]
     rng.shuffle(combos)
-    for (e, v, om) in combos:
+
+    def mb(e, v):
         base = {"kind": "array", "shape": [rng.randint(2, 6)], "chunks": [rng.randint(1, 3)], "ops": [rng.choice(["add", "mul"])]}
         ch = {"kind": "mapblocks", "base": base, "extra": e, "via": v, "ops": []}
-        yield "bw_layer", {"child": ch, "omit": om, "seed": rng.choice([0, 3])}
+        lit = rng.choice([None, None, None, "name", "name", "str", "list"])
+        if lit:
+            ch["lit"] = lit
+        return ch
+    yield "bw_layer", {"child": {"kind": "mapblocks", "base": {"kind": "array", "shape": [4], "chunks": [2], "ops": ["add"]},
+                                 "extra": "delayed", "via": "map_blocks", "ops": [], "lit": "name"}, "omit": [], "seed": 0}
+    yield "api", {"op": "clone", "child": {"kind": "mapblocks", "base": {"kind": "array", "shape": [4], "chunks": [2], "ops": ["add"]},
+                                           "extra": "delayed", "via": "blockwise", "ops": [], "lit": "name"}, "seed": 3, "omit": []}
+    for (e, v, om) in combos:
+        yield "bw_layer", {"child": mb(e, v), "omit": om, "seed": rng.choice([0, 3]), "bind": rng.random() < 0.8}
     api_combos = [c for c in combos if c[2] == [0, 1]] + [c for c in combos if c[2] != [0, 1]][:ctx.n(24, 45)]
     for (e, v, om) in api_combos:
-        base = {"kind": "array", "shape": [rng.randint(2, 6)], "chunks": [rng.randint(1, 3)], "ops": [rng.choice(["add", "mul"])]}
-        ch = {"kind": "mapblocks", "base": base, "extra": e, "via": v, "ops": []}
+        ch = mb(e, v)
         for op in ("bind", "clone") if rng.random() < 0.4 else ("bind",):
             yield "api", {"op": op, "child": ch, "parent": _gen_coll(rng, rng.choice(["array", "bag", "delayed"])),
                           "seed": rng.choice([None, 0, 5]), "assume_layers": True, "omit": om,
                           "scheduler": rng.choice(["sync", "threads"]), "split_every": rng.choice([None, 2])}
     for _ in range(ctx.n(60)):
         yield "checkpoint_tree", {"n": rng.randint(1, 40), "np": rng.randint(1, 25), "split_every": rng.choice([None, False, 2, 3, 4, 8])}
+    # _bind_one's layer bookkeeping on DAG-shaped collections
+    yield "bind_layers", {"dag": {"kind": "dag", "flavour": "array", "n": 4, "chunks": 2,
+                                  "nodes": [["leaf", 0], ["un", "add", 0], ["un", "add", 1], ["un", "mul", 1], ["bin", "add", 2, 3]]},
+                          "out": 4, "omit": [1], "op": "bind", "parent": {"node": 1}, "seed": 0, "assume_layers": True,
+                          "split_every": None, "orders": [1, 2]}
+    for _ in range(ctx.n(110)):
+        yield "bind_layers", _gen_bind_layers(rng)
